@@ -14,11 +14,10 @@
    `e.srcError == err`).  Records of the pinned code: [errors_is_orig] panics
    (C06_no_panic_orig_refuted).
 
-   Open finding (known_findings.d/C06.json, id C06-second-convert): Convert/ConvertS applied to
-   an error that already carries a converted error keeps the first one, so errors.Is(result, e)
-   is false for the second e.  [C06_convert_fwd_full_statement] is the clause as the property
-   states it, [C06_convert_fwd_refuted] its witness, [C06_convert_fwd_partial] the clause
-   restricted to receivers that carry no converted error yet.                                 *)
+   Second repair (finding C06-second-convert, now fixed): Convert/ConvertS applied to an error that
+   already carries a converted error used to drop the new one; CloneBase now appends it to
+   laterSrcErrors ([g_later]) and Is also walks that list, so [C06_convert_fwd] holds for every
+   receiver.  Record of the old code: [C06_convert_fwd_orig_refuted].                          *)
 From Coq Require Import NArith List Bool.
 From GT Require Import Base.GErrStr.
 From GT Require Import GErrModel GErrSpec GErrHist GErrIsProofs GErrHistProofs.
@@ -38,7 +37,7 @@ Theorem C06_chain_keeps_factory : forall xw, guarded_wiring xw -> forall ch st v
   forallb no_shortcut ch = true ->
   derive xw st v ch = Some (st', r) ->
   wf st' /\ exists k, gv st' r = Some k /\ origin st' k = origin st i /\ length st <= length st'
-                       /\ (ch = [] \/ length st <= k).
+     /\ (ch = [] \/ (length st <= k /\ exists ck, nth_error st' k = Some ck /\ g_isfac (c_g ck) = false)).
 Proof. exact derive_origin. Qed.
 
 (* ---- the property's first sentence in one statement: for any pool, any factory F of it, any
@@ -77,16 +76,19 @@ Theorem C06_siblings : forall st e1 e2 i j,
   errors_is st e1 e2 = Ok true.
 Proof. exact is_siblings. Qed.
 
-(* ---- ExtractFactoryReference: the factory's record for a derived error, the factory itself
-        for a FactoryOf factory, nil for a bare *GError used directly ---- *)
+(* ---- ExtractFactoryReference: the value itself for anything made a factory with FactoryOf
+        (a pool factory or a sub-factory), else the originating factory's record for a derived
+        error, nil for a bare *GError used directly ---- *)
 Theorem C06_extract : forall st v j cj,
   wf st -> gv st v = Some j -> nth_error st j = Some cj ->
   extract_fref st v =
-  if is_nil (g_fref (c_g cj)) then (if g_isfac (c_g cj) then VG j else VNil) else VG (origin st j).
+  if g_isfac (c_g cj) then VG j
+  else if is_nil (g_fref (c_g cj)) then VNil else VG (origin st j).
 Proof. exact extract_gerr. Qed.
 
 (* ---- Convert / ConvertS ---- *)
-(* the clause as the property states it: for every receiver *)
+(* the clause as the property states it: for every receiver (also one that already carries
+   converted errors), every comparable foreign error e: errors.Is(result, e) *)
 Definition C06_convert_fwd_full_statement : Prop :=
   forall xw st v m a st' r i t p u,
     guarded_wiring xw -> wf st -> gv st v = Some i ->
@@ -94,27 +96,28 @@ Definition C06_convert_fwd_full_statement : Prop :=
     call xw st v m a = Some (st', r) ->
     errors_is st' r (VF t true p u) = Ok true.
 
-(* ... restricted to receivers that carry no converted error yet *)
-Theorem C06_convert_fwd_partial : forall xw st v m a st' r i ci t p u,
-  guarded_wiring xw -> wf st -> gv st v = Some i -> nth_error st i = Some ci ->
-  g_serr (c_g ci) = VNil ->
-  w_serr (wt_of xw v m) = EErr -> a_err a = VF t true p u -> pure u = true ->
-  call xw st v m a = Some (st', r) ->
-  errors_is st' r (VF t true p u) = Ok true.
-Proof. exact convert_fwd_first. Qed.
+Theorem C06_convert_fwd : C06_convert_fwd_full_statement.
+Proof. exact convert_fwd_full. Qed.
 
 (* exactly Convert and ConvertS pass the error on *)
 Theorem C06_convert_methods : forall m, w_serr (base_wiring m) = EErr <-> is_convert m = true.
 Proof. exact convert_wiring. Qed.
 
-(* in general the result matches the first converted error on its chain, and never panics *)
+(* in general: the first converted error of the chain stays srcError, later ones are appended;
+   the result matches exactly the recorded ones, and never panics *)
 Theorem C06_convert_fwd_general : forall xw st v m a st' r i ci t c p u,
   guarded_wiring xw -> wf st -> gv st v = Some i -> nth_error st i = Some ci ->
   w_serr (wt_of xw v m) = EErr -> a_err a = VF t c p u -> pure u = true ->
   call xw st v m a = Some (st', r) ->
   errors_is st' r (VF t c p u)
-  = Ok (serr_match (serr_after (g_serr (c_g ci)) (VF t c p u)) (VF t c p u)).
+  = Ok (conv_after (g_serr (c_g ci)) (g_later (c_g ci)) (VF t c p u)).
 Proof. exact convert_is_fwd. Qed.
+
+(* errors.Is(gerror value, foreign value) in any well-formed store: some recorded error matches *)
+Theorem C06_is_foreign_target : forall st va i ci t c p u,
+  wf st -> gv st va = Some i -> nth_error st i = Some ci ->
+  errors_is st va (VF t c p u) = Ok (conv_match (c_g ci) (VF t c p u)).
+Proof. exact (fun st va i ci t c p u W => errors_is_gf st W va i ci t c p u). Qed.
 
 (* a non-comparable converted error can never compare equal: false, without panic *)
 Theorem C06_convert_fwd_noncomparable : forall xw st v m a st' r i ci t p u,
@@ -138,9 +141,33 @@ Theorem C06_convert_idem : forall xw st v m a i,
   call xw st v m a = Some (st, a_err a).
 Proof. exact call_convert_idem. Qed.
 
-(* the full clause fails: a second Convert keeps the first converted error *)
-Theorem C06_convert_fwd_refuted : ~ C06_convert_fwd_full_statement.
-Proof. exact convert_fwd_full_refuted. Qed.
+(* two Converts in a row: both foreign errors match the result, the sibling does not see the
+   later one; and the record of the code before the repair, where the second one was lost *)
+Theorem C06_second_convert_example :
+  match call base_wiring panic_store (VG 0) MConvert (mkA [] [] [] e_one [] 0 [109%N]) with
+  | Some (st1, r1) =>
+      match call base_wiring st1 r1 MConvert (mkA [] [] [] e_two [] 1 [109%N]) with
+      | Some (st2, r2) =>
+          errors_is st2 r2 e_two = Ok true /\ errors_is st2 r2 e_one = Ok true
+          /\ errors_is st2 r1 e_two = Ok false
+      | None => False
+      end
+  | None => False
+  end.
+Proof. exact double_convert_recorded. Qed.
+
+Theorem C06_convert_fwd_orig_refuted :
+  match call base_wiring panic_store (VG 0) MConvert (mkA [] [] [] e_one [] 0 [109%N]) with
+  | Some (st1, r1) =>
+      match call base_wiring st1 r1 MConvert (mkA [] [] [] e_two [] 1 [109%N]) with
+      | Some (st2, r2) =>
+          errors_is (map orig_cell st2) r2 e_two = Ok false
+          /\ errors_is (map orig_cell st2) r2 e_one = Ok true
+      | None => False
+      end
+  | None => False
+  end.
+Proof. exact double_convert_orig_not_recorded. Qed.
 
 (* ---- none of these calls panics, for any source and any target ---- *)
 Theorem C06_no_panic : forall st va vb,
@@ -197,13 +224,15 @@ Print Assumptions C06_is_own.
 Print Assumptions C06_not_other.
 Print Assumptions C06_siblings.
 Print Assumptions C06_extract.
-Print Assumptions C06_convert_fwd_partial.
+Print Assumptions C06_convert_fwd.
+Print Assumptions C06_is_foreign_target.
+Print Assumptions C06_second_convert_example.
+Print Assumptions C06_convert_fwd_orig_refuted.
 Print Assumptions C06_convert_methods.
 Print Assumptions C06_convert_fwd_general.
 Print Assumptions C06_convert_fwd_noncomparable.
 Print Assumptions C06_convert_bwd.
 Print Assumptions C06_convert_idem.
-Print Assumptions C06_convert_fwd_refuted.
 Print Assumptions C06_no_panic.
 Print Assumptions C06_no_panic_orig_refuted.
 Print Assumptions C06_bare_extension_observation.
